@@ -87,16 +87,17 @@ var exts = []string{".json", ".json", ".obj", ".x.y"}
 
 // Profile tunes generation for the property being checked.
 type Profile struct {
-	Name       string
-	MaxOps     int
-	UniqueMin  int
-	UniqueMax  int
-	IndexPct   int
-	CasePct    int
-	ForceSync  bool
-	ForceAsync bool
-	NoAsync    bool
-	Scribble   bool
+	Name         string
+	MaxOps       int
+	UniqueMin    int
+	UniqueMax    int
+	IndexPct     int
+	CasePct      int
+	ForceSync    bool
+	ForceAsync   bool
+	NoAsync      bool
+	Scribble     bool
+	AsyncOracles bool // per-step ghost-file check (C10)
 	// op weights
 	W map[string]int
 }
